@@ -9,6 +9,9 @@ namespace Core
 /-- loss states: 1 up, 2 down (404), 3 slow, 4 hang (0 = unknown) -/
 abbrev LossItvl := Nat × Nat      -- (state, durS)
 
+/-- `maxTimeS` (2^36): the bound on one interval's duration -/
+def maxLossDur : Nat := 68719476736
+
 /-- `CreateLossItvls` on the characters of a pattern like `u20d3u12`; `none` = rejected -/
 def parseLossAux : List Char → Nat → Nat → List LossItvl → Option (List LossItvl)
   | [], st, dur, acc =>
@@ -20,7 +23,10 @@ def parseLossAux : List Char → Nat → Nat → List LossItvl → Option (List 
       if st ≠ 0 then (if dur = 0 then none else parseLossAux rest n 0 (acc ++ [(st, dur)]))
       else parseLossAux rest n 0 acc
     | none =>
-      if c.isDigit then parseLossAux rest st (dur * 10 + (c.toNat - '0'.toNat)) acc else none
+      if c.isDigit then
+        (if dur * 10 + (c.toNat - '0'.toNat) > maxLossDur then none   -- `fix:` 2^36 bound (`maxTimeS`)
+         else parseLossAux rest st (dur * 10 + (c.toNat - '0'.toNat)) acc)
+      else none
 
 /-- `CreateLossItvls` (with the `fix:` commit: an empty pattern is rejected) -/
 def parseLoss (s : String) : Option (List LossItvl) :=
